@@ -17,9 +17,14 @@ kinds:  b64e   base64.b64encode(input) == expected
         urlq0  urllib.parse.quote(input, safe=<encodeURI set>) == expected
         urlq1  urllib.parse.quote(input, safe=<encodeURIComponent set>) == expected
         urlu   urllib.parse.unquote_to_bytes(input) == expected
+        urlok  expected is the byte 01 when input is a percent-encoded text in the sense of RFC 3986 (only unreserved and reserved
+               characters and %XX triplets; in particular no NUL byte), else the byte 00
         sha1   hashlib.sha1(input).digest() == expected
 """
-import sys, base64, binascii, hashlib, urllib.parse
+import sys, base64, binascii, hashlib, urllib.parse, re
+
+# RFC 3986: unreserved = ALPHA / DIGIT / "-" / "." / "_" / "~"; gen-delims = ":/?#[]@"; sub-delims = "!$&'()*+,;="; pct-encoded = "%" HEXDIG HEXDIG
+PCT_TEXT = re.compile(rb"(?:[A-Za-z0-9\-._~:/?#\[\]@!$&'()*+,;=]|%[0-9A-Fa-f]{2})*", re.DOTALL)
 
 # urllib.parse.quote never escapes letters, digits and "_.-~"; the rest of asl's two sets is passed as `safe`
 SAFE0 = ";/?:@&=+$,#!*'()"
@@ -38,6 +43,7 @@ def compute(kind, data):
     if kind == 'urlq0': return urllib.parse.quote(data, safe=SAFE0).encode('ascii')
     if kind == 'urlq1': return urllib.parse.quote(data, safe=SAFE1).encode('ascii')
     if kind == 'urlu': return urllib.parse.unquote_to_bytes(data)
+    if kind == 'urlok': return b'\x01' if PCT_TEXT.fullmatch(data) else b'\x00'
     if kind == 'sha1': return hashlib.sha1(data).digest()
     raise ValueError('unknown kind ' + kind)
 
